@@ -369,7 +369,7 @@ func runThorough(id, repo, verif string) map[string]interface{} {
 	// behaviour-preserving edits applied to the whole module at once: the property's rules must stay silent
 	sweeps := map[string]interface{}{"what": "each sweep applies one behaviour-preserving edit to EVERY function of the module in memory (a no-op statement first / before every statement / before every return; every local, parameter and named result renamed; every unexported function, method, struct field and package variable renamed at once, which the reference-name table must recognise; a trailing `if c { S }` of a loop or result-less function turned into a guard clause; `if x := e; c` split; a tagless switch turned into an if-chain; every returned expression, every call-valued argument and every if condition named by a local first) and re-runs the property's rules: a report here is a brittleness of a rule, not a violation of the property"}
 	self, _ := os.Executable()
-	for _, kind := range []string{"noop-first", "noop-each", "noop-before-return", "rename-locals", "rename-members", "guard-invert", "ifinit-split", "switch-to-if", "ret-local", "arg-local", "cond-local", "return-swap", "if-to-switch"} {
+	for _, kind := range []string{"noop-first", "noop-each", "noop-before-return", "rename-locals", "rename-members", "guard-invert", "ifinit-split", "switch-to-if", "ret-local", "arg-local", "cond-local", "return-swap", "if-to-switch", "lit-split"} {
 		cmd := exec.Command(self, "sweep", kind)
 		cmd.Env = append(os.Environ(), "NPVERIF_SWEEP_PROP="+id, "NPVERIF_REPO="+repo, "NPVERIF_DIR="+verif)
 		b, _ := cmd.CombinedOutput()
